@@ -145,7 +145,7 @@ GRID_KINDS = ("dense", "csr", "coo", "csc", "bsr", "mixed")
 
 
 def enum_kron_grid(tier):
-    for nops in (1, 2, 3, 4):
+    for nops in (1, 2, 3, 4) if tier == "quick" else (1, 2, 3, 4, 5):
         for dims in itertools.product((1, 2, 3), repeat=nops):
             seed = zlib.crc32(repr(dims).encode())
             rng = np.random.default_rng(seed)
@@ -181,7 +181,7 @@ def run_kron_grid(case):
     amax = float(np.max(np.abs(ref)))
     kind = case["kind"]
     own_full = dense(qu.kron(*ops))
-    e = check_close(own_full, ref, 1e-14, mag, kind=kind, clause="full")
+    e = check_close(own_full, ref, 1e-13, mag, kind=kind, clause="full")
     n = nt = unserved = 0
     want_sparse = any(is_sparse_fmt(f) for f in fmts)
     may_bsr = bsr_possible(fmts)
@@ -202,7 +202,7 @@ def run_kron_grid(case):
             # the statement: exactly the rows of the full object.  Each entry is one product of the same
             # factors, so only the last-bit rounding of (complex) products may differ.
             d = float(np.max(np.abs(Xd - own_full[ri:rf])))
-            if not d <= 1e-14 * amax:
+            if not d <= 1e-13 * amax:
                 raise Violation("own-rows", kind=kind, own=[ri, rf], D=D, err=d / max(amax, 1e-300))
             e = max(e, d / max(amax, 1e-300))
             n += 1
@@ -327,8 +327,16 @@ def s_ikron(draw, tier):
         if b - a >= 2 and prod(dims[a:b]) == 1:
             # a 1x1 operator on several 1-dimensional sites reads equally as "one copy per site": not an overlay
             dims[draw(st.integers(a, b - 1))] = 2
-        ops = [op(prod(dims[a:b]))]
         inds = list(inds)
+        if b - a >= 3 and draw(st.booleans()):
+            # "span" spelling used by ham_j1j2: only some sites of the block are listed (both ends always are);
+            # the operator still covers the whole span first..last
+            inner = [i for i in inds if a < i < b - 1]
+            drop = set(draw(st.lists(st.sampled_from(inner), min_size=1, max_size=len(inner), unique=True)))
+            inds = [i for i in inds if i not in drop]
+            if dims[a] == 1:
+                dims[a] = 2  # quimb only keeps accumulating over unlisted sites once the running size exceeds 1
+        ops = [op(prod(dims[a:b]))]
     elif mode == "int":
         inds = draw(st.integers(0, n - 1))
         ops = [op(dims[inds])]
@@ -346,10 +354,11 @@ def s_ikron(draw, tier):
         ops = [op(s) for s in sizes]
     any_sparse = any(is_sparse_fmt(o["fmt"]) for o in ops)
     sparse = draw(st.sampled_from([None, None, True, False]))
+    span = mode == "overlay" and len(inds) < max(inds) - min(inds) + 1
     will_sparse = sparse is True or (sparse is None and any_sparse) or any_sparse
     allow = will_sparse or draw(st.integers(0, 9)) == 0
     return {
-        "mode": mode, "dims": dims, "inds": inds, "ops": ops, "bare": mode in ("overlay", "int") and draw(st.booleans()),
+        "mode": mode, "span": span, "dims": dims, "inds": inds, "ops": ops, "bare": mode in ("overlay", "int") and draw(st.booleans()),
         "sparse": sparse, "stype": draw(st.sampled_from([None, None] + list(FMTS))) if allow else None,
         "coo_build": draw(st.booleans()) if allow else False, "parallel": draw(st.integers(0, 3)) == 0,
         "own": draw(st.one_of(st.none(), st.none(), st.tuples(st.integers(0, 10**6), st.integers(0, 10**6)))),
@@ -400,6 +409,8 @@ def run_ikron(case):
         kw["ownership"] = own
         ref = ref[own[0]:own[1]]
     targets = set(case["inds"] if isinstance(case["inds"], list) else [case["inds"]])
+    if case["mode"] == "overlay":
+        targets = set(range(min(targets), max(targets) + 1))
     # identity factors of dimension 1 are never materialised by ikron
     has_identity = any(abs(d) > 1 for i, d in enumerate(case["dims"]) if i not in targets)
     result_sparse = any_sparse or (case["sparse"] is True and has_identity)
@@ -427,7 +438,8 @@ def run_ikron(case):
     il = case["inds"] if isinstance(case["inds"], list) else [case["inds"]]
     dd = [abs(d) for d in case["dims"]]
     return {"nt": len(dd) >= 3 and (mixed(dd) or case["mode"] == "auto") and (unsorted(il) or case["mode"] in ("overlay", "int")),
-            "cls": ["mode=" + case["mode"], "sparse_in" if any_sparse else "dense_in", "nops=%d" % len(ops)] +
+            "cls": ["mode=" + case["mode"] + ("-span" if case.get("span") else ""), "sparse_in" if any_sparse else "dense_in",
+                    "nops=%d" % len(ops)] +
                    ["opt=" + k for k in kw] + (["unsorted"] if unsorted(il) else []) +
                    (["has1"] if 1 in case["dims"] else []), "err": e}
 
@@ -1248,9 +1260,11 @@ def run_ham_rand(case):
 
 
 SUBCHECKS = [
-    SubCheck("kron_ownership_grid", run_kron_grid, enum=enum_kron_grid, exhaustive=True, shards=(6, 6),
-             rule="EXHAUSTIVE: all dims in {1,2,3}^(1..4) (d x c blocks, c in 1..3) x {dense,csr,coo,csc,bsr,mixed} x every 0<=ri<rf<=D: "
-                  "kron(*ops, ownership=(ri,rf)) is bitwise kron(*ops)[ri:rf] and kron(*ops)==np.kron chain to 1e-14; nt cell: proper "
+    SubCheck("kron_ownership_grid", run_kron_grid, enum=enum_kron_grid, exhaustive=True, shards=(6, 14),
+             soft_budget=(200.0, 1200.0), hard_timeout=(400.0, 2400.0),
+             rule="EXHAUSTIVE: all dims in {1,2,3}^(1..4) (thorough ..5; d x c blocks, c in 1..3) x {dense,csr,coo,csc,bsr,mixed} x every "
+                  "0<=ri<rf<=D: kron(*ops, ownership=(ri,rf)) has exactly rf-ri rows equal to kron(*ops)[ri:rf] (entrywise to 1e-13 of "
+                  "the largest entry: each entry is one product of the same factors) and kron(*ops)==np.kron chain; nt cell: proper "
                   "sub-range with >=2 non-trivial factors"),
     SubCheck("kron_formats", run_kron_formats, s_kron_formats, examples=(600, 6000), shards=(1, 4),
              rule="kron / kronpow / & of 1-5 kets, bras, square and rectangular blocks in dense/ndarray/csr/csc/coo/bsr, 4 dtypes, "
